@@ -313,3 +313,11 @@ def constructions_3d_lattice(ctx):
             l2 = g.Line(g.Point(*o), g.Point(*[x + y for x, y in zip(o, d2)]))
             ctx.ensure("3d:is_perpendicular(lines)", bool(is_perpendicular(l1, l2)) == want, witness=dict(origin=o, d1=d1, d2=d2, want=want))
         ctx.ensure("3d:is_perpendicular(planes)", bool(is_perpendicular(g.Plane(*d1, 1), g.Plane(*d2, -4))) == want, witness=dict(n1=d1, n2=d2, want=want))
+    # two parallel (distinct) planes are not perpendicular: the predicate has to say so
+    for n_ in ((1, 2, 2), (0, 0, 1), (1, -1, 0)):
+        for (c1, c2, f) in ((-3, 1, 2), (0, 5, -1), (2, 3, 1)):
+            try:
+                got = bool(is_perpendicular(g.Plane(*n_, c1), g.Plane(*[f * x for x in n_], c2)))
+            except Exception as ex:
+                got = "%s" % type(ex).__name__
+            ctx.ensure("3d:is_perpendicular(parallel-planes)-is-False", got is False, witness=dict(e=n_ + (c1,), f=tuple(f * x for x in n_) + (c2,), got=got), excuse=("KF-C10-1", None))
